@@ -709,6 +709,12 @@ where
         self.curr_jobs.len()
     }
 
+    /// verif: length of this worker's message queue, for the model correspondence.
+    #[cfg(feature = "verif")]
+    pub fn verif_queued_job_count(&self) -> usize {
+        self.message_queue.len()
+    }
+
     pub(crate) fn has_pending_key(&self, key: &TKey) -> bool {
         self.pending_key_counts.contains_key(key)
     }
